@@ -215,6 +215,14 @@ def run(chk):
         chk.note_case(("link", int(l)))
     for r in range(0, chk.pick(7, 11)):
         for start in ((0, 0), (3, -2)):
+            # an earlier caller that stopped part-way round the outermost ring (a search that found what it wanted)
+            # must not change what later callers get
+            if r > 0 and start == (0, 0):
+                inner = 1 + 3 * r * (r - 1)
+                g = geometry.concentric_hexagons(r, (rng.randint(-2, 2), 1))
+                for _ in range(inner + rng.randint(1, max(1, 6 * r - 1))):
+                    next(g, None)
+                del g
             seq = [[int(x), int(y)] for x, y in geometry.concentric_hexagons(r, start)]
             evs.append(["hex", r, start[0], start[1], seq])
             chk.note_case(("hex", r, start), nontrivial=r > 0)
